@@ -215,6 +215,19 @@ func init() {
 				add("random-long", crc, b, []int{4096})
 			}
 		}
+		// a VALID stream whose adaptive tree grows deeper than 16 levels (Fibonacci-like symbol frequencies, codes of
+		// 17 and 18 bits): oracle only in the quick tier (the Lean evaluation of 274 KB takes long; C06's thorough
+		// tier runs it through the model)
+		for _, crc := range []bool{true, false} {
+			deep := fibProfile(1.0)
+			_, valid := implLzw(crc, deep, nil, false)
+			out := readerOracle(c, "deep-tree", crc, valid, []int{4096})
+			_, data, cerr, _, _ := implLzr(crc, valid, []int{997})
+			if cerr != nil || !bytes.Equal(data, deep) {
+				c.Violate("C08:valid-stream-misread:deep-tree", fmt.Sprintf("a valid stream with Huffman codes longer than 16 bits was not read back (Close = %v, %d of %d bytes equal)", cerr, firstDiff(data, deep), len(deep)), map[string]interface{}{"input": "fibProfile(1.0), 274016 bytes", "crc": crc, "observed": trunc(out, 200)})
+			}
+			c.Res.Distribution["deep-tree(oracle only)"]++
+		}
 		c.Compare(cases)
 	})
 }
